@@ -139,6 +139,7 @@ pub struct SimStats {
     pub cancel_polls: u64,
     pub cancel_fired: u64,
     pub listener_path: u64,
+    pub max_polls_in_a_solve: u64,
 }
 
 pub struct SimCore {
@@ -405,7 +406,13 @@ impl SimCore {
     pub fn poll_cancel(&self) -> Option<Token> {
         let n = self.cancel_polls.get();
         self.cancel_polls.set(n + 1);
-        self.stats.borrow_mut().cancel_polls += 1;
+        {
+            let mut st = self.stats.borrow_mut();
+            st.cancel_polls += 1;
+            if n + 1 > st.max_polls_in_a_solve {
+                st.max_polls_in_a_solve = n + 1;
+            }
+        }
         let fired = match &*self.cancel_plan.borrow() {
             Some(CancelPlan {
                 at_poll,
